@@ -339,17 +339,17 @@ struct C19 : Scenario {
              "at random moments and re-created, so that under the lifo policy a new Lexicon reuses the storage of a dead one (a stale pointer into a dead Lexicon would alias a live node; freed blocks are poisoned until reused). "
              "Oracle: after each destruction the simulated heap's live set for that sub-arena is empty (a surviving block is reported with the operation that allocated it: deterministic, more precise than LeakSanitizer); no sanitizer report at any step. "
              "Fault enumeration sub-runs: for sampled histories every allocation index of every operation is failed in turn (one fault per re-execution); after the failed operation every earlier object is re-observed; the verdict uses memory safety and "
-             "'earlier results intact' only, leak counts after an injected failure are recorded, not judged. Non-trivial = at least one Lexicon destroyed after use.";
+             "'earlier results intact', and the Lexicon's later destruction is held to the same leak oracle (class suffix /after-bad_alloc). Non-trivial = at least one Lexicon destroyed after use.";
    }
    std::vector<std::string> probe_names() const override
    {
       return { "lexicons_destroyed", "leak_checks", "ops", "prints", "units", "modules", "fault.alloc_configured", "fault.alloc_fired", "fault.enumerated_histories", "fault.enumerated_allocation_points",
-               "opt.blocks_leaked_after_injected_failure", "rechecks_after_fault", "heap.reused_blocks", "lexicon_recreated_in_place", "opt.peak_live_blocks" };
+               "opt.blocks_leaked_in_histories_with_an_injected_failure", "rechecks_after_fault", "heap.reused_blocks", "lexicon_recreated_in_place", "opt.peak_live_blocks" };
    }
    std::vector<std::string> assumptions() const override
    {
       return { "objects the harness itself places in the arena on the library's behalf (units, modules, tokens, side factories, sequences kept by reference) are destroyed by the harness before the leak check",
-               "after an injected bad_alloc leaks are recorded but not judged: the library documents nothing about its state after allocation failure" };
+               "after an injected bad_alloc the harness releases what it had itself placed in the arena for the interrupted call (a Warehouse, a unit under construction); every other block is the library's" };
    }
    size_t prologue_count(int) const override { return 4; }
    Plan prologue(size_t i, int) const override
@@ -431,7 +431,9 @@ struct C19 : Scenario {
          LeakReport lr = leak_check(c, codes, born_serial[c]);
          ctx.event("destroy lexicon %d -> %zu live blocks", c, lr.blocks);
          if (lr.leaked) {
-            if (had_fault) { ctx.probe(B_leaked_after_fault, lr.blocks); return Verdict::ok(); }   // recorded, not judged
+            // A history in which a factory call ended in std::bad_alloc is a construction history like any other: what was
+            // allocated on the Lexicon's behalf before, during and after it is returned when the Lexicon is destroyed.
+            if (had_fault) { ctx.probe(B_leaked_after_fault, lr.blocks); return Verdict::fail(lr.cls + "/after-bad_alloc", lr.detail + " (an earlier operation of this history ended in an injected std::bad_alloc)"); }
             return Verdict::fail(lr.cls, lr.detail);
          }
          return Verdict::ok();
